@@ -65,19 +65,62 @@ func runC18(c *Ctx) {
 	}})
 	// the shutdown broadcast must come after ctxCancel as well? (not required) -- but after the flag flip, checked above.
 
-	// (1) Poll
-	if f := p.CFGOf(pkg, "Queue", "Poll"); f == nil {
-		r.Unresolved("poll/value-only-when-due", pkg+".Queue.Poll", "method not found")
-	} else {
-		key := pkg + ".Queue.Poll"
-		// variable holding the popped element
-		var polled types.Object
-		inspectNoLit(f.Body, func(n ast.Node) bool {
-			if as, ok := n.(*ast.AssignStmt); ok && len(as.Rhs) == 1 && strings.Contains(exprKey(as.Rhs[0]), "heap.Pop(") {
-				polled = objOfIdent(info, as.Lhs[0])
+	// (1) Poll - or the stage of it that waits for one popped element: the method of Queue that holds
+	// the select on the timer channel. The popped element is the local assigned from heap.Pop there,
+	// or - when popping is a stage of its own - the parameter whose cancel channel is selected on.
+	awaitFd := p.FuncDecl(pkg, "Queue", "Poll")
+	for _, m := range p.Methods(pkg, "Queue") {
+		if m.Body == nil {
+			continue
+		}
+		has := false
+		ast.Inspect(m.Body, func(n ast.Node) bool {
+			if cc, ok := n.(*ast.CommClause); ok && cc.Comm != nil {
+				if es, ok := cc.Comm.(*ast.ExprStmt); ok {
+					if u, ok := es.X.(*ast.UnaryExpr); ok && u.Op == token.ARROW && strings.HasSuffix(exprKey(u.X), "timer.C") {
+						has = true
+					}
+				}
 			}
 			return true
 		})
+		if has {
+			awaitFd = m
+		}
+	}
+	if awaitFd == nil || awaitFd.Body == nil {
+		r.Unresolved("poll/value-only-when-due", pkg+".Queue.Poll", "method not found")
+	} else {
+		f := newFuncCFG(p, info, awaitFd.Body, funcKey(pkg, awaitFd))
+		key := pkg + ".Queue.Poll"
+		// variable holding the popped element
+		var polled types.Object
+		for _, pt := range f.Find(func(n ast.Node) bool {
+			as, ok := n.(*ast.AssignStmt)
+			return ok && len(as.Rhs) == 1 && strings.Contains(exprKey(as.Rhs[0]), "heap.Pop(")
+		}) {
+			polled = objOfIdent(info, f.nodeAt(pt).(*ast.AssignStmt).Lhs[0])
+		}
+		if polled == nil {
+			params := map[types.Object]bool{}
+			for _, po := range paramObjs(info, awaitFd) {
+				if po != nil {
+					params[po] = true
+				}
+			}
+			ast.Inspect(awaitFd.Body, func(n ast.Node) bool {
+				if cc, ok := n.(*ast.CommClause); ok && cc.Comm != nil {
+					if es, ok := cc.Comm.(*ast.ExprStmt); ok {
+						if u, ok := es.X.(*ast.UnaryExpr); ok && u.Op == token.ARROW && strings.HasSuffix(exprKey(u.X), ".cancel") {
+							if ro := rootObj(info, u.X); ro != nil && params[ro] {
+								polled = ro
+							}
+						}
+					}
+				}
+				return true
+			})
+		}
 		if polled == nil {
 			r.Fail("poll/value-only-when-due", key, f.P.posStr(f.Body.Pos()), "no heap.Pop into a variable")
 		} else {
@@ -117,7 +160,7 @@ func runC18(c *Ctx) {
 			})
 			isValueReturn := func(n ast.Node) bool {
 				rs, ok := n.(*ast.ReturnStmt)
-				return ok && len(rs.Results) == 1 && mentionsObj(info, rs.Results, polled)
+				return ok && len(rs.Results) >= 1 && mentionsObj(info, rs.Results, polled)
 			}
 			rets := f.Find(isValueReturn)
 			if len(rets) == 0 || len(timerArms) == 0 {
@@ -194,38 +237,44 @@ func runC18(c *Ctx) {
 		r.Unresolved("cancel/close-once-under-lock", pkg+".QueueElement.Cancel", "method not found")
 	} else {
 		key := pkg + ".QueueElement.Cancel"
-		// close(cancel) sits in the default clause of a select whose other clause receives from the same channel
+		// the close is reachable only through the default arm of a select whose other arm receives from
+		// the same channel (the closed-test) - in Cancel itself or in a predicate helper spliced into it
 		okGuard, nClose := false, 0
-		ast.Inspect(fd.Body, func(n ast.Node) bool {
-			sel, ok := n.(*ast.SelectStmt)
-			if !ok {
-				return true
-			}
-			var recvChan, closeChan string
-			for _, cl := range sel.Body.List {
-				cc := cl.(*ast.CommClause)
-				if cc.Comm != nil {
-					if es, ok := cc.Comm.(*ast.ExprStmt); ok {
-						if u, ok := es.X.(*ast.UnaryExpr); ok && u.Op == token.ARROW {
-							recvChan = exprKey(u.X)
-						}
-					}
-				} else {
-					for _, st := range cc.Body {
-						ast.Inspect(st, func(m ast.Node) bool {
-							if c2, ok := m.(*ast.CallExpr); ok && exprKey(c2.Fun) == "close" && len(c2.Args) == 1 {
-								closeChan = exprKey(c2.Args[0])
-							}
-							return true
-						})
+		{
+			cf := newFuncCFG(p, info, fd.Body, key)
+			var notClosed []Edge
+			for _, b := range cf.G.Blocks {
+				if !b.Live {
+					continue
+				}
+				// go/cfg chains the clauses of a select: the block that evaluates a communication has the
+				// clause body as its first successor and "after this case" (the next clause, finally the
+				// default body) as its second; leaving a receive on the cancel channel through the second
+				// edge means the channel was not ready, i.e. not closed
+				if len(b.Succs) != 2 || b.Succs[0].Kind != cfg.KindSelectCaseBody || b.Succs[1].Kind != cfg.KindSelectAfterCase {
+					continue
+				}
+				cc, ok := b.Succs[0].Stmt.(*ast.CommClause)
+				if !ok || cc.Comm == nil {
+					continue
+				}
+				if es, ok := cc.Comm.(*ast.ExprStmt); ok {
+					if u, ok := es.X.(*ast.UnaryExpr); ok && u.Op == token.ARROW && strings.HasSuffix(exprKey(u.X), ".cancel") {
+						notClosed = append(notClosed, Edge{b, 1})
 					}
 				}
 			}
-			if recvChan != "" && recvChan == closeChan {
-				okGuard = true
+			closes := cf.Find(func(n ast.Node) bool {
+				c2, ok := n.(*ast.CallExpr)
+				return ok && exprKey(c2.Fun) == "close" && len(c2.Args) == 1 && strings.HasSuffix(exprKey(c2.Args[0]), ".cancel")
+			})
+			okGuard = len(closes) > 0 && len(notClosed) > 0
+			for _, cp := range closes {
+				if _, only := cf.OnlyThroughEdges(cp, notClosed); !only {
+					okGuard = false
+				}
 			}
-			return true
-		})
+		}
 		var heldAtClose LockSet
 		AnalyzeLocks(fd.Body, LockSet{}, &FlowOpts{Info: info}, func(n ast.Node, stack []ast.Node, held LockSet) {
 			if c2, ok := n.(*ast.CallExpr); ok && exprKey(c2.Fun) == "close" && strings.HasSuffix(exprKey(c2.Args[0]), ".cancel") {
@@ -466,18 +515,24 @@ func checkTaskExecutor(r *Reporter, p *Prog) {
 		}
 	}
 	// R-IDENT: the wrapper's Delete(identifier) must be guarded by an identity comparison with its own task
-	var lit *ast.FuncLit
+	// the wrapper handed to the executor: a function literal, or a method value / named function
+	var litBody *ast.BlockStmt
+	var litPos token.Pos
 	ast.Inspect(fd.Body, func(n ast.Node) bool {
 		if cl, ok := n.(*ast.CallExpr); ok && strings.HasSuffix(exprKey(cl.Fun), ".Executor.ExecuteAt") && len(cl.Args) >= 1 {
-			if l, ok := cl.Args[0].(*ast.FuncLit); ok {
-				lit = l
+			if b, pos := callableBody(p, info, cl.Args[0]); b != nil {
+				litBody, litPos = b, pos
 			}
 		}
 		return true
 	})
 	ikey := key + " wrapper"
-	if lit == nil {
-		r.Fail("ident/unregister-own-entry", ikey, p.posStr(fd.Pos()), "no wrapper closure passed to the executor")
+	lit := struct {
+		Body *ast.BlockStmt
+		pos  token.Pos
+	}{litBody, litPos}
+	if litBody == nil {
+		r.Fail("ident/unregister-own-entry", ikey, p.posStr(fd.Pos()), "no wrapper (function literal or method value) passed to the executor")
 	} else {
 		lf := newFuncCFG(p, info, lit.Body, ikey)
 		dels := lf.Find(func(n ast.Node) bool {
@@ -487,31 +542,54 @@ func checkTaskExecutor(r *Reporter, p *Prog) {
 		// identity edges: a comparison `x == y` where one side is a variable of the enclosing function
 		// bound to the task returned by the scheduling call
 		var own types.Object
+		var ownField types.Object // the task is kept in a field of the wrapper's state instead of a captured variable
 		ast.Inspect(fd.Body, func(n ast.Node) bool {
 			if as, ok := n.(*ast.AssignStmt); ok && len(as.Rhs) == 1 && len(as.Lhs) == 1 {
 				if cl, ok := ast.Unparen(as.Rhs[0]).(*ast.CallExpr); ok && strings.HasSuffix(exprKey(cl.Fun), ".Executor.ExecuteAt") {
 					own = objOfIdent(info, as.Lhs[0])
+					if se, isSel := ast.Unparen(as.Lhs[0]).(*ast.SelectorExpr); isSel {
+						if sel := info.Selections[se]; sel != nil && sel.Kind() == types.FieldVal {
+							if v, isVar := sel.Obj().(*types.Var); isVar {
+								ownField = v.Origin()
+							}
+						}
+					}
 				}
 			}
 			return true
 		})
+		isOwnField := func(e ast.Expr) bool {
+			se, isSel := ast.Unparen(e).(*ast.SelectorExpr)
+			if !isSel || ownField == nil {
+				return false
+			}
+			if sel := info.Selections[se]; sel != nil && sel.Kind() == types.FieldVal {
+				if v, isVar := sel.Obj().(*types.Var); isVar && v.Origin() == ownField {
+					// on the wrapper's own state: the receiver of the method that is the wrapper
+					return true
+				}
+			}
+			return false
+		}
 		// (operands resolved through helper parameters back to the captured variable)
 		var same []Edge
-		if own != nil {
+		if own != nil || ownField != nil {
 			lf.forEachEdgeFact(func(e Edge, b *cfg.Block, ft fact) {
 				be, ok := ast.Unparen(ft.Atom).(*ast.BinaryExpr)
 				if !ok || !((be.Op == token.EQL && ft.Pol) || (be.Op == token.NEQ && !ft.Pol)) {
 					return
 				}
 				pt := Point{b, len(b.Nodes) - 1}
-				if lf.IsVar(be.X, pt, own) || lf.IsVar(be.Y, pt, own) {
+				if own != nil && (lf.IsVar(be.X, pt, own) || lf.IsVar(be.Y, pt, own)) {
+					same = append(same, e)
+				} else if isOwnField(be.X) || isOwnField(be.Y) {
 					same = append(same, e)
 				}
 			})
 		}
 		switch {
 		case len(dels) == 0:
-			r.Fail("ident/unregister-own-entry", ikey, p.posStr(lit.Pos()), "the wrapper never removes its identifier: finished tasks stay 'pending'")
+			r.Fail("ident/unregister-own-entry", ikey, p.posStr(lit.pos), "the wrapper never removes its identifier: finished tasks stay 'pending'")
 		default:
 			ok := true
 			for _, d := range dels {
@@ -521,16 +599,32 @@ func checkTaskExecutor(r *Reporter, p *Prog) {
 				}
 			}
 			if ok {
-				r.Pass("ident/unregister-own-entry", ikey, p.posStr(lit.Pos()), "the entry is removed only if it is still this task")
+				r.Pass("ident/unregister-own-entry", ikey, p.posStr(lit.pos), "the entry is removed only if it is still this task")
 			}
 		}
 		// and the callback runs before the removal
 		cb := lf.Find(func(n ast.Node) bool {
 			cl, ok := n.(*ast.CallExpr)
-			return ok && exprKey(cl.Fun) == "callback"
+			if !ok || len(cl.Args) != 0 {
+				return false
+			}
+			// the user's callback: a call of a func() VALUE (captured parameter or field), not of a method
+			sig, isSig := info.TypeOf(cl.Fun).Underlying().(*types.Signature)
+			if !isSig || sig.Params().Len() != 0 || sig.Results().Len() != 0 {
+				return false
+			}
+			switch x := ast.Unparen(cl.Fun).(type) {
+			case *ast.Ident:
+				_, isVar := info.Uses[x].(*types.Var)
+				return isVar
+			case *ast.SelectorExpr:
+				sel := info.Selections[x]
+				return sel != nil && sel.Kind() == types.FieldVal
+			}
+			return false
 		})
 		if len(cb) != 1 {
-			r.Fail("taskexec/wrapper-runs-callback", ikey, p.posStr(lit.Pos()), "the wrapper must run the callback exactly once")
+			r.Fail("taskexec/wrapper-runs-callback", ikey, p.posStr(lit.pos), "the wrapper must run the callback exactly once")
 		} else {
 			r.Pass("taskexec/wrapper-runs-callback", ikey, lf.PosOf(cb[0]), "callback invoked once")
 		}
